@@ -37,6 +37,7 @@ class World:
         # slow_exit: a terminated worker needs this many seconds before it is gone (a worker finishing its
         # tasks); join() without timeout waits for it, join(timeout=t) returns early while it is still alive
         self.slow_exit: float = 0.0
+        self.clock: float = 1000.0
         self.tick = 0  # number of sleep() calls so far
         self.trace: List[Tuple[Any, ...]] = []
         self.procs: List["FakeProcess"] = []
@@ -90,7 +91,16 @@ class World:
         return None
 
     # the tick -------------------------------------------------------------------
+    def now(self) -> float:
+        """The world's clock (what time.monotonic / time.time / perf_counter read in the manager's module)."""
+        return self.clock
+
     def sleep(self, secs: float) -> None:
+        if not isinstance(secs, (int, float)):
+            raise TypeError("'%s' object cannot be interpreted as an integer or float" % type(secs).__name__)
+        if secs < 0:
+            raise ValueError("sleep length must be non-negative")  # what time.sleep does
+        self.clock += float(secs)
         if self.tick >= len(self.history):
             raise EndOfHistory
         entry = self.history[self.tick]
@@ -174,6 +184,8 @@ class FakeProcess:
             w.rec("join_timeout", self.name, self.pid)  # still alive when join() gives up
             return
         w.rec("join", self.name, self.pid)
+        if self.state == "terminating":
+            w.clock += float(w.slow_exit)  # the caller waits for as long as the process needs to be gone
         if self.state in ("terminating", "dead"):
             self.state = "dead"
             self.reaped = True
@@ -270,6 +282,9 @@ class _CurProc:
     name = "MainProcess"
 
 
+_ABSENT = object()
+
+
 def run_history(workers: int, max_fails: int, history: List[Any], lag: bool = False, slow_exit: float = 0.0,
                 reload: bool = False, boot: Any = None, mtpc: Any = None) -> Dict[str, Any]:
     """Run the real ProcessManager.__init__/start() against one history in the fake world."""
@@ -279,6 +294,11 @@ def run_history(workers: int, max_fails: int, history: List[Any], lag: bool = Fa
     FakeQueue.world = world
     FakeEvent.world = world
     saved = {k: getattr(pm, k) for k in ("Process", "Queue", "Event", "sleep", "os", "signal", "current_process")}
+    # clock readers the module may have imported by name (none in the unchanged tree)
+    clocks = {k: getattr(pm, k, _ABSENT) for k in ("monotonic", "perf_counter", "time")}
+    for k in clocks:
+        if clocks[k] is _ABSENT or callable(clocks[k]):
+            setattr(pm, k, world.now)
     pm.Process = FakeProcess  # type: ignore
     pm.Queue = FakeQueue  # type: ignore
     pm.Event = FakeEvent  # type: ignore
@@ -311,6 +331,12 @@ def run_history(workers: int, max_fails: int, history: List[Any], lag: bool = Fa
     finally:
         for k, v in saved.items():
             setattr(pm, k, v)
+        for k, v in clocks.items():
+            if v is _ABSENT:
+                if hasattr(pm, k):
+                    delattr(pm, k)
+            else:
+                setattr(pm, k, v)
     out["trace"] = world.trace
     out["reload"] = reload
     out["boot"] = boot
@@ -675,6 +701,9 @@ class ProcCheck(Check):
                     hist.append(base + (mids,))
                 lag = rng.random() < 0.5
                 boot = [[rng.randint(1, 5 * w), "die", rng.randrange(w)] for _ in range(rng.choice([1, 1, 2]))] if rng.random() < 0.15 else None
+                if boot is None and rng.random() < 0.08:
+                    # a signal that arrives while the manager is still starting its workers (its handlers are installed)
+                    boot = [[rng.randint(1, 5 * w), "sig", rng.choice(["INT", "TERM", "HUP"])]]
                 out = run_history(w, mf, hist, lag, rng.choice([0.0, 0.0, 8.0]), reload=rng.random() < 0.25, boot=boot,
                                   mtpc=rng.choice([None, None, 1, 10]))
                 self._account(cr, out, w, mf, hist)
